@@ -269,8 +269,23 @@ def write_timedelta_i32(buffer: Writable, value: i32Timedelta) -> None:
     write_int32(buffer, round(value.total_seconds() * 1000))  # type: ignore[arg-type]
 
 
+_one_millisecond: Final = datetime.timedelta(milliseconds=1)
+
+
+def _round_to_milliseconds(value: datetime.timedelta) -> int:
+    # Use integer arithmetic, total_seconds() is a float and cannot represent all
+    # millisecond values above 2**53.
+    milliseconds, remainder = divmod(value, _one_millisecond)
+    # Round half to even, as round() does.
+    if remainder * 2 > _one_millisecond or (
+        remainder * 2 == _one_millisecond and milliseconds % 2 == 1
+    ):
+        milliseconds += 1
+    return milliseconds
+
+
 def write_timedelta_i64(buffer: Writable, value: i64Timedelta) -> None:
-    write_int64(buffer, round(value.total_seconds() * 1000))  # type: ignore[arg-type]
+    write_int64(buffer, _round_to_milliseconds(value))  # type: ignore[arg-type]
 
 
 def write_datetime_i64(buffer: Writable, value: datetime.datetime) -> None:
